@@ -8,6 +8,7 @@ import (
 	"sync/atomic"
 	"testing"
 	"time"
+	"verifharness/internal/hook"
 
 	"github.com/rulego/streamsql"
 	"github.com/rulego/streamsql/functions"
@@ -38,9 +39,10 @@ type Case struct {
 	Stops       int        `json:"stops"`
 	StopAfterUs int        `json:"stop_after_us"`
 	Sinks       []SinkSpec `json:"sinks"`
-	PanicRow    bool       `json:"panic_row"`  // rows that make a custom function panic
-	PaceUs      int        `json:"pace_us"`    // producer pause every 16 rows
-	Sentinel    bool       `json:"sentinel"`   // direct kinds: after the producers, a sentinel row must still be delivered before Stop
+	PanicRow    bool       `json:"panic_row"`           // rows that make a custom function panic
+	PaceUs      int        `json:"pace_us"`             // producer pause every 16 rows
+	Sentinel    bool       `json:"sentinel"`            // direct kinds: after the producers, a sentinel row must still be delivered before Stop
+	HookSeed    uint64     `json:"hook_seed,omitempty"` // seed of the engine's build-tag-guarded perturbation points (0 = off)
 }
 
 var registerOnce sync.Once
@@ -101,6 +103,7 @@ func genCase(t *rapid.T) Case {
 	c.PanicRow = (c.Kind == "direct") && rapid.IntRange(0, 2).Draw(t, "panicrow") == 0
 	c.PaceUs = rapid.SampledFrom([]int{0, 0, 20, 200}).Draw(t, "pace")
 	c.Sentinel = (c.Kind == "direct" || c.Kind == "analytic") && rapid.Bool().Draw(t, "sentinel")
+	c.HookSeed = hookSeed(t)
 	return c
 }
 
@@ -171,6 +174,13 @@ func engineBlocked(dump string) bool {
 }
 
 func runCase(c Case) (res pbt.Result) {
+	hook.Configure(c.HookSeed)
+	defer func() {
+		for site, n := range hook.Sites() {
+			res.Count("hook:"+site, n)
+		}
+		hook.Configure(0)
+	}()
 	registerBoom()
 	time.Sleep(0)
 	base, _ := run.EngineGoroutines()
@@ -495,15 +505,23 @@ func features(c Case) []string {
 }
 
 var spec = pbt.Spec[Case]{
-	ID:   "C18",
-	Rule: "generated: query kind in {direct, analytic, CEP, tumbling/sliding/session in event and processing time, counting, global} x strategy {drop, block, expand}; 1-4 producers, 0-2 EmitSync callers, AddSink adders, GetStats readers, TriggerWindow callers, 1-2 Stop callers at a drawn offset; sinks plain / slow / panicking every k-th call / re-entrant (GetStats, Emit, AddSink, Stop), sync or async; rows that make a registered custom function panic; built with -race (GORACE=halt_on_error). oracle: no panic escapes an API call, no data race, Stop returns (within grace + slack), afterwards the sink-call counter stays constant, Emit/EmitSync after Stop do not panic, a second Stop returns at once, every API caller returns, the census of goroutines with engine frames returns to its pre-New value, and with the block strategy a sentinel row emitted after panicking sinks/rows is still delivered. non-trivial = Stop overlapped an in-flight producer and at least one sink call happened; distinct by case hash",
+	ID:          "C18",
+	Rule:        "generated: query kind in {direct, analytic, CEP, tumbling/sliding/session in event and processing time, counting, global} x strategy {drop, block, expand}; 1-4 producers, 0-2 EmitSync callers, AddSink adders, GetStats readers, TriggerWindow callers, 1-2 Stop callers at a drawn offset; sinks plain / slow / panicking every k-th call / re-entrant (GetStats, Emit, AddSink, Stop), sync or async; rows that make a registered custom function panic; built with -race (GORACE=halt_on_error). oracle: no panic escapes an API call, no data race, Stop returns (within grace + slack), afterwards the sink-call counter stays constant, Emit/EmitSync after Stop do not panic, a second Stop returns at once, every API caller returns, the census of goroutines with engine frames returns to its pre-New value, and with the block strategy a sentinel row emitted after panicking sinks/rows is still delivered. non-trivial = Stop overlapped an in-flight producer and at least one sink call happened; distinct by case hash",
 	Assumptions: []string{"a wait that expires without engine frames in the goroutine dump is inconclusive, not a violation", "re-entrant Emit only under non-blocking strategies; re-entrant Stop is issued from a goroutine started by the sink"},
-	Gen:      genCase,
-	Run:      runCase,
-	Features: features,
-	WAL:      true,
+	Gen:         genCase,
+	Run:         runCase,
+	Features:    features,
+	WAL:         true,
 }
 
 func TestProp(t *testing.T)    { pbt.RunProp(t, spec) }
 func TestReplay(t *testing.T)  { pbt.RunReplay(t, spec) }
 func TestWitness(t *testing.T) { pbt.RunWitnesses(t, spec) }
+
+// hookSeed: two cases in three run with schedule perturbation at the engine's verif-tagged points.
+func hookSeed(t *rapid.T) uint64 {
+	if rapid.IntRange(0, 2).Draw(t, "hookon") == 0 {
+		return 0
+	}
+	return uint64(rapid.IntRange(1, 1<<30).Draw(t, "hookseed"))
+}
